@@ -31,6 +31,14 @@ def gen(tier, rng, scale):
     nrng = rng.fork("no-id-all")
     for _ in range((30 if tier == "quick" else 600) * scale):
         cases.append({"items": E.gen_history(nrng, grammar=True), "layout": [nrng.chance(1, 2), nrng.chance(1, 2), True, True, "std", None, True]})
+    # recordings whose time origin (HEADER_SAMPLE_TIME: the time of the first sample, as perf writes it) lies inside the history: FORK / COMM / EXEC / EXIT
+    # records dated before the first sample are records like any other (their converted times are clamped to the origin)
+    orng = rng.fork("origin")
+    for _ in range((40 if tier == "quick" else 800) * scale):
+        items = E.gen_history(orng, grammar=True)
+        times = [E.record_time(r) for r in items if r[0] == "sample"] or [E.record_time(r) for r in items]
+        if times:
+            cases.append({"items": items, "origin": min(times) if orng.chance(2, 3) else orng.choice(times)})
     return cases
 
 
